@@ -28,6 +28,9 @@ type StrVal struct {
 	// NonASCII, when non-nil, is the condition under which this string is an opaque non-ASCII
 	// string (result of ToLower/ToUpper on bytes >= 0x80): it then differs from every ASCII string.
 	Opaque *Term
+	// LenOnly: a buffer whose content is never inspected (message bodies of arbitrary size);
+	// only Len is meaningful, any read of the content aborts the run.
+	LenOnly bool
 }
 
 type StructVal struct{ F []Value }
@@ -205,7 +208,7 @@ func (x *Exec) ite(c *Term, a, b Value) Value {
 		if len(bv.B) > n {
 			n = len(bv.B)
 		}
-		out := &StrVal{B: make([]*Term, n)}
+		out := &StrVal{B: make([]*Term, n), LenOnly: av.LenOnly || bv.LenOnly}
 		z := tb.BV(8, 0)
 		for i := 0; i < n; i++ {
 			p, q := z, z
@@ -515,6 +518,9 @@ func isString(t types.Type) bool {
 // strByteAt returns s[i] for a 64-bit index term (ite chain); caller has checked bounds.
 func (x *Exec) strByteAt(s *StrVal, idx *Term) *Term {
 	tb := x.tb
+	if s.LenOnly {
+		x.fail("content of a length-only buffer is read (outside the encoding)")
+	}
 	if idx.IsConst() {
 		if idx.K < uint64(len(s.B)) {
 			return s.B[idx.K]
@@ -575,6 +581,9 @@ func (x *Exec) strSlice(s *StrVal, lo, hi *Term) *StrVal {
 // strConcat returns a + b.
 func (x *Exec) strConcat(a, b *StrVal) *StrVal {
 	tb := x.tb
+	if a.LenOnly || b.LenOnly {
+		return &StrVal{Len: tb.Add(a.Len, b.Len), LenOnly: true}
+	}
 	if a.Len.IsConst() && a.Len.K == 0 {
 		return b
 	}
@@ -635,6 +644,9 @@ func orFalse(tb *TB, t *Term) *Term {
 // strEq returns the term a == b.
 func (x *Exec) strEq(a, b *StrVal) *Term {
 	tb := x.tb
+	if a.LenOnly || b.LenOnly {
+		x.fail("content of a length-only buffer is compared (outside the encoding)")
+	}
 	r := tb.Eq(a.Len, b.Len)
 	if r.IsFalse() {
 		return r
